@@ -356,7 +356,7 @@ class Hpm(object):
 
     def activation_stage(self, image, component):
         self.activate_firmware_and_wait(
-            image.header.inaccessibility_timeout, 1)
+            timeout=image.header.inaccessibility_timeout, interval=1)
         self.wait_until_new_firmware_comes_up(
             image.header.inaccessibility_timeout, 1)
         self._activation_state_do_self_testing()
